@@ -1,4 +1,5 @@
 import Driver.Region
+import Driver.Glyph
 /-! `pixdrv <domain>`: reads requests on stdin, writes one reply line per request. -/
 
 partial def loop (h : IO.FS.Stream) (out : IO.FS.Stream) (f : String → String) : IO Unit := do
@@ -12,4 +13,5 @@ def main (args : List String) : IO UInt32 := do
   let stdout ← IO.getStdout
   match args with
   | ["region"] => loop stdin stdout Driver.Region.handle; return 0
+  | ["glyph"] => loop stdin stdout Driver.Glyph.handle; return 0
   | _ => IO.eprintln "usage: pixdrv <domain>"; return 2
